@@ -129,7 +129,8 @@ def enumerate_exprs(maxsize, atoms):
     return seen
 
 
-ASCII_ATOMS = [("cls", "a", False), ("cls", "b", False), ("cls", "ab", False), ("cls", "a", True), ("cls", "", True)]
+ASCII_ATOMS = [("cls", "a", False), ("cls", "b", False), ("cls", "ab", False), ("cls", "a", True), ("cls", "ab", True),
+               ("cls", "", True)]          # [^ab]: a negated class with two members (two explicit dead symbols next to a live wildcard)
 
 
 def mb_atoms(literal):
